@@ -373,7 +373,7 @@ theorem cmpRule_shape {tl tr t : AT} (h : cmpRule tl tr = .ok t) :
   | error e => simp [hu] at h
   | ok p => simp only [hu] at h; cases h; exact ⟨_, _, _, rfl, (unify_sim hu).1, (unify_sim hu).2⟩
 
-theorem iteRule_shape {tc tt tf t : AT} {bt bf : Bool} (h : iteRule tc tt tf bt bf = .ok t) :
+theorem iteRule_shape {tc tt tf t : AT} (h : iteRule tc tt tf = .ok t) :
     ∃ a k2 k3, t = .ite a tc k2 k3 ∧ Sim tt k2 ∧ Sim tf k3 := by
   unfold iteRule at h
   simp only at h
